@@ -158,7 +158,7 @@ CLAIMS["C01"] = dict(
           "the params part of the node invariant the walks assume, and newNodeFromRef hands it on. "
           "NOT proved (bounded only): WHICH route is selected - priority static > parameter > catch-all, parameters in pattern order, substitution."),
     design_ref="DESIGN.md section 4 C01, section 9, section 10",
-    note=TRUSTED + BOUNDED + " Assumed for the walks: node well-formedness of every node in the heap (nodeWF in verif_contracts_walk.go: index ranges, params/end positions agree with the '{' count of the key, childless and catch-all-terminal nodes are leaves, infix catch-alls have an inode) - not proved of the constructors, but checked on every tree the routing and map-model stand-ins build; a sub-walk on a pooled context leaves the caller's buffers alone; the monotonicity axiom of cnt. Two genuine defects found by the stand-in were repaired (parameter count after a second backtrack; known_findings.json); three sibling-dependent trailing-slash priority witnesses are recorded as open findings.")
+    note=TRUSTED + BOUNDED + " Assumed for the walks: node well-formedness of every node in the heap (nodeWF in verif_contracts_walk.go: index ranges, params/end positions agree with the '{' count of the key, childless and catch-all-terminal nodes are leaves, infix catch-alls have an inode) - not proved of the constructors, but checked on every tree the routing and map-model stand-ins build; a sub-walk on a pooled context leaves the caller's buffers alone; the monotonicity axiom of cnt. Two genuine defects found by the stand-in were repaired (parameter count after a second backtrack; known_findings.json); the sibling-dependent trailing-slash priority defect found by the stand-in was repaired as well (no open finding is left).")
 CLAIMS["C08"] = dict(
     technique="contract-based deductive verification of request dispatch over an abstract selection function + bounded stand-in for the trailing-slash detection in the walk",
     text=("Proved for every request and router state (ServeHTTP, including its own memory safety: no nil dereference, index or type-assertion failure for a router built by New and routes built by NewRoute): exactly one handler runs; a direct match runs the route's handler with tsr=false; "
@@ -168,7 +168,7 @@ CLAIMS["C08"] = dict(
           "given. The redirect handler answers 301 for GET and 308 otherwise, builds the Location from the escaped request path, as `<last segment>/` (prefixed with `./` whenever "
           "the segment contains ':', so it can never be read as a scheme) or `../<last segment>` (exposed a genuine defect, repaired; RFC 3986 resolution itself is not modelled). NOT proved (bounded only): that the walk reports tsr exactly when the slash-adjusted path has a route and picks the documented route."),
     design_ref="DESIGN.md section 4 C08, section 9, section 10",
-    note=TRUSTED + BOUNDED + " Assumed: the contract of (*iTree).lookup (selection is a function of the immutable tree and the request; writes only the context buffers). One genuine defect was repaired (tsr pointing at the parent route), three priority witnesses are open known findings.")
+    note=TRUSTED + BOUNDED + " Assumed: the contract of (*iTree).lookup (selection is a function of the immutable tree and the request; writes only the context buffers). Two genuine defects were repaired (tsr pointing at the parent route; sibling-dependent tsr priority); no open finding is left.")
 CLAIMS["C09"] = dict(
     technique="contract-based deductive verification of host normalisation and of the hostname-first lookup + bounded stand-in for the hostname walk",
     text=("Proved for every Host string: StripHostPort returns the host without a final ':port' (bracketed IPv6 kept), and without one trailing dot; SplitHostZone splits at the "
